@@ -62,6 +62,7 @@ loadsize:装载字节数
 void sha1hash::getHash(const u8_t *input, u32_t final_loadsize)
 {
   addtotal(final_loadsize);
+  const u64_t msgbits = totalsize;
   u8_t *temp = new u8_t[getblen()];
   memset(temp, 0, getblen());
   memcpy(temp, input, final_loadsize);
@@ -73,7 +74,7 @@ void sha1hash::getHash(const u8_t *input, u32_t final_loadsize)
   }
   for (int i = 0; i < 8; ++i)
   {
-    temp[56 + i] = (u8_t)(((u64_t)totalsize >> ((7 - i) << 3)));
+    temp[56 + i] = (u8_t)((msgbits >> ((7 - i) << 3)));
   }
   getHash(temp);
   delete[] temp;
